@@ -142,6 +142,13 @@ def handleTEI : Handler := fun st op args =>
       let (recs, x) := run (mkEnv st.basis { t with gos := [] } false) (tokenize (charsOfBytes bytes))
       some (st, fmtExit x ++ fmtRecs recs)
     | _, _ => some (st, "bad-op")
+  -- pipelined input: outcome class and everything written, in order
+  | "teibulk", _depth :: _chunk :: hex :: ents =>
+    match unhex hex, parseTable ents with
+    | some bytes, some t =>
+      let (recs, x) := run (mkEnv st.basis t true) (tokenize (charsOfBytes bytes))
+      some (st, fmtExit x ++ " || " ++ "~".intercalate ((recs.flatMap fun r => r.out).map canonInfo))
+    | _, _ => some (st, "bad-op")
   | "teiclass", _depth :: hex :: ents =>
     match unhex hex, parseTable ents with
     | some bytes, some t =>
